@@ -4,6 +4,7 @@ import Driver.C02
 import Driver.C12Mon
 import Driver.Flow
 import Driver.C14
+import Driver.C05Mon
 open Kv
 
 structure DState where
@@ -20,6 +21,7 @@ def dispatch (st : DState) (prop : String) (l : Line) : DState × String :=
   | "C04" => let (s, r) := Drv.Flow.step "C04" st.c04 l; ({ st with c04 := s }, r)
   | "C07" => let (s, r) := Drv.Flow.step "C07" st.c07 l; ({ st with c07 := s }, r)
   | "C14" => (st, Drv.C14.step l)
+  | "C05" => (st, Drv.C05.step l)
   | _ => (st, "bad-op")
 
 def main : IO Unit := driverMain dispatch {}
